@@ -182,6 +182,19 @@ class Picky(Expr):
 
 
 @dataclass(frozen=True)
+class PickyLate(Expr):
+    """validates AFTER the base class has assigned ids and registered the node"""
+
+    v: int = 0
+    note: str = field(default="", compare=False)
+
+    def __post_init__(self) -> None:
+        super().__post_init__()
+        if self.note == "bad":
+            raise RuntimeError("rejected after registration")
+
+
+@dataclass(frozen=True)
 class Two(Expr):
     """two adjacent string properties (target of separator-splice attacks on the digest framing)"""
 
@@ -208,6 +221,7 @@ CHILD_FIELDS: dict[type, list[tuple[str, bool]]] = {
     PropZoo: [],
     Two: [],
     Picky: [],
+    PickyLate: [],
     Slotted: [],
     Serial: [],
 }
